@@ -453,7 +453,14 @@ class HtmlWriter:
         by :meth:`~skoolkit.skoolhtml.HtmlWriter.push_snapshot`."""
         if len(self._snapshots) < 2:
             raise SkoolKitError("Cannot pop snapshot when snapshot stack is empty")
-        self.snapshot[:] = self._snapshots.pop()[0][:]
+        snapshot = self._snapshots.pop()[0]
+        if len(snapshot) == 0x20000 and len(self.snapshot) == 0x20000:
+            # Restore all eight RAM banks and the paging state
+            for bank, data in zip(self.snapshot.banks, snapshot.banks):
+                bank[:] = data
+            self.snapshot.out7ffd(snapshot.o7ffd)
+        else:
+            self.snapshot[:] = snapshot[:]
 
     # API
     def push_snapshot(self, name=''):
